@@ -451,8 +451,10 @@ impl<'a> forward_interprocedural_fixpoint::Context<'a> for Context<'a> {
                     self.handle_extern_symbol_call(&mut new_state, extern_symbol, &call.tid);
                     if !extern_symbol.no_return {
                         self.adjust_stack_register_on_return_from_call(state, &mut new_state);
-                        return Some(new_state);
                     }
+                    // For non-returning symbols the state still has to be propagated (to the artificial sink),
+                    // since it contains the parameter accesses of the call.
+                    return Some(new_state);
                 } else if let Some(cconv) = self.project.get_standard_calling_convention() {
                     new_state.handle_unknown_function_stub(
                         call,
